@@ -126,6 +126,8 @@ static void ev_script(const int *s, int n)
 static void do_tofd(json_object *obj, int flags, int via_file)
 {
 	int script[64];
+	if (via_file == 2)
+		flags = JSON_C_TO_STRING_PLAIN; /* json_object_to_file: the plain form */
 	const char *txt = json_object_to_json_string_ext(obj, flags);
 	char *want = strdup(txt ? txt : "");
 	int ns = gen_script(script, 40, (int)strlen(want));
@@ -135,10 +137,15 @@ static void do_tofd(json_object *obj, int flags, int via_file)
 	int ret;
 	if (via_file)
 	{
+		/* the file exists already and is longer than the document: nothing of it may survive */
+		static char junk[6000];
+		memset(junk, 'J', sizeof junk);
+		if (vh_below(2) && write(fd, junk, strlen(want) + 1 + vh_below(2000) < sizeof junk ? strlen(want) + 1 + vh_below(2000) : sizeof junk) < 0)
+			exit(2);
 		close(fd);
 		/* the library opens the file itself: the script applies to whatever fd it gets (next free = fd again) */
 		set_script(fd, script, ns);
-		ret = json_object_to_file_ext(tmpl, obj, flags);
+		ret = via_file == 2 ? json_object_to_file(tmpl, obj) : json_object_to_file_ext(tmpl, obj, flags);
 	}
 	else
 	{
@@ -312,7 +319,7 @@ static int drive(int start, int nexec)
 		static const int fl[] = {0, JSON_C_TO_STRING_SPACED, JSON_C_TO_STRING_PRETTY, JSON_C_TO_STRING_PRETTY | JSON_C_TO_STRING_PRETTY_TAB, JSON_C_TO_STRING_NOSLASHESCAPE};
 		int flags = fl[vh_below(5)];
 		if (t)
-			do_tofd(t, flags, (int)vh_below(4) == 0);
+			do_tofd(t, flags, vh_below(4) ? 0 : 1 + (int)vh_below(2));
 		/* reading: the serialization of t, a mutated one, or garbage */
 		const char *txt = json_object_to_json_string_ext(t, flags);
 		size_t len = strlen(txt);
